@@ -173,6 +173,45 @@ def threshold_ldpc(rng, count, apis=("recv", "setavail"), finish=True, cbs=(None
     return execs
 
 
+def rs_pow2(rng, cbs=(None,)):
+    """Reed-Solomon codes whose k, n or n-k are powers of two (or next to one): the sizes at which tables of k, n,
+    k*k or n*k elements meet fixed-size buffers.  One encoder and one decoder (one source symbol lost) per code."""
+    execs = []
+    ks = [1, 2, 4, 8, 16, 32, 64, 128]
+    pairs = set()
+    for k in ks:
+        for n in [2, 4, 8, 16, 32, 64, 128, 255, k + 1, 2 * k, 2 * k - 1, 2 * k + 1]:
+            if k < n <= 255:
+                pairs.add((k, n))
+    for (k, n) in sorted(pairs):
+        for (c, m) in ((1, 0), (2, 8)) + (((2, 4),) if n <= 15 else ()):
+            p = P(c, k, n - k, m=m, length=rng.choice([1, 4, 9]) if k > 8 else None, payload="rnd" if k > 8 else "id")
+            esis = sorted({k, n - 1})
+            execs.append(gen.encode_exec(p, order=esis, slots=rng.choice(["buf", "null"])))
+            lost = rng.randrange(k)
+            sub = [e for e in range(k) if e != lost] + [rng.randrange(k, n)]
+            rng.shuffle(sub)
+            api = rng.choice(["recv", "setavail"])
+            execs.append(gen.decode_exec(p, sorted(sub) if api == "setavail" else sub, api=api, finish=True, cb=rng.choice(cbs), probe="end"))
+    return execs
+
+
+def high_rate_ldpc(rng, count):
+    """LDPC-Staircase codes with many source symbols per equation (k/(n-k) large, N1 up to n-k): the rows of H get
+    long and uneven (several columns can draw the same row); encoder sessions building every repair symbol, and
+    decoders that lost one source symbol"""
+    execs = []
+    for _ in range(count):
+        k = rng.randint(20, 80); r = rng.randint(4, 12); n1 = rng.randint(3, min(10, r))
+        p = P(3, k, r, N1=n1, seed=rng.choice([1, 2, 3, rng.randint(1, 2 ** 31 - 2)]))
+        execs.append(gen.encode_exec(p, slots=rng.choice(["buf", "null", ["buf", "null"]])))
+        lost = rng.randrange(k)
+        sub = [e for e in range(p.n) if e != lost and rng.random() < 0.95]
+        rng.shuffle(sub)
+        execs.append(gen.decode_exec(p, sub, api="recv", finish=True, probe="end"))
+    return execs
+
+
 def big_symbols(rng, count, cbs=(None,)):
     """every codec with symbol lengths at the page / 16-bit sizes (random payloads: the driver reports equality
     with the original symbol), small codes, received sets at the threshold so that symbols really get decoded"""
@@ -484,10 +523,12 @@ def workload(pid, tier, rng):
         execs += random_rs(rng, 300 if q else 3000, 40 if q else 255, cbs=cbs_all)
         execs += random_rs(rng, 20 if q else 300, 255, cbs=(None, "buf"), payloads=("rnd",))
         execs += big_symbols(rng, 36 if q else 600, cbs=cbs_all)
+        execs += rs_pow2(rng, cbs=cbs_all)
         execs += threshold_ldpc(rng, 150 if q else 3000, mid=True, cbs=cbs_all)
     elif pid == "C02":
         execs += rs_exhaustive(rs_small, rng, apis=("recv", "setavail"), orders=2 if q else 4, probe="each")
         execs += rs_exhaustive(rs_small, rng, apis=("mixed",), orders=1, probe="end")
+        execs += rs_pow2(rng)
         execs += rs_exhaustive(rs_mid, rng, apis=("recv", "setavail"), orders=1, probe="end", maxsub=150 if q else 1500)
         execs += random_rs(rng, 300 if q else 20000, 255)
         # the MDS argument rests on the generator being V_rest * V_top^-1: one (T: four) repair row(s) of EVERY k,
@@ -548,6 +589,7 @@ def workload(pid, tier, rng):
         execs += random_rs(rng, 600 if q else 25000, 40 if q else 255, cbs=cbs_all)
         execs += big_ldpc(rng, [400] if q else [400, 1200, 3000])
         execs += big_symbols(rng, 24 if q else 400, cbs=cbs_all)
+        execs += rs_pow2(rng, cbs=cbs_all)
     elif pid == "C07":
         # lengths, alignments, limits
         for length in ([1, 2, 3, 4, 5, 7, 8, 9, 12, 15, 16, 17, 20, 24, 28, 31, 32, 33, 44] + ([] if q else [47, 63, 64, 65, 100, 1024, 1316])):
@@ -569,6 +611,8 @@ def workload(pid, tier, rng):
         execs += random_rs(rng, 800 if q else 30000, 60 if q else 255, cbs=cbs_all)
         execs += big_ldpc(rng, [500] if q else [500, 1500, 4000])
         execs += big_symbols(rng, 36 if q else 600, cbs=cbs_all)
+        execs += rs_pow2(rng, cbs=cbs_all)
+        execs += high_rate_ldpc(rng, 100 if q else 2000)
         if not q:
             p = P(3, 2000, 1000, N1=3, seed=9, length=8, payload="rnd")
             execs.append(gen.decode_exec(p, rng.sample(range(p.n), 2300), finish=True, probe="end"))
